@@ -254,6 +254,21 @@ func init() {
 			{Name: "bind-ops+slash", Sc: scBind(defaultParams(), bindOpsFull(), []Template{tSlash}, []string{"bad"}, 6+d, 4, 3), Oracles: o},
 		}
 	}})
+	register(&CheckSpec{Prop: "C19", Runs: func(tier string) []RunSpec {
+		d := 0
+		if tier == "thorough" {
+			d = 2
+		}
+		o := []Oracle{oracleC19{}}
+		mainO := AlphaOpts{RespKinds: []string{"ok", "bad"}, CtxOps: []string{"pause", "kill"}, Withdraw: []string{"O1:P1"}, SetW: []string{"O1:W1"},
+			BindOps: []Action{actDisable("a", "P1", "O1"), actRefund("a", "P1", "O1")}}
+		return []RunSpec{
+			{Name: "life-export-points", Sc: scLife(defaultParams(), []Template{tOne, tRep2, tPoor}, mainO, 6+d, 4, 2), Oracles: o, Post: genesisPost},
+			{Name: "fees-export-points", Sc: scFees(paramSet("0.1", "0.001"), false, 5+d, 3, 3), Oracles: o, Post: genesisPost},
+			{Name: "names-export-points", Sc: scNames(defaultParams(), 5+d, 3, 4), Oracles: o, Post: genesisPost},
+			{Name: "mod-export-points", Sc: scMod(defaultParams(), []Template{tMod1, tModPoor}, AlphaOpts{RespKinds: []string{"ok"}, ModOps: []string{"mpause", "mkill"}}, 6+d, 4, 2), Oracles: o, Post: genesisPost},
+		}
+	}})
 	register(&CheckSpec{Prop: "C20", Runs: func(tier string) []RunSpec {
 		d := 0
 		if tier == "thorough" {
